@@ -1019,3 +1019,31 @@ pub fn drive(args: &[String]) {
     s.set("scenarios_skipped", json!(skipped));
     s.print();
 }
+
+
+/// Coordinate compression shared with other modules: sorted distinct values (with neighbours and both
+/// domain ends) and their ranks; consecutive values get consecutive ranks, others are 2 apart; the
+/// domain maximum gets rank TRACE_TOP.  None if there are too many values.
+pub fn rank_map(dmin: u128, dmax: u128, used: Vec<u128>) -> Option<(Vec<u128>, Vec<u64>)> {
+    let mut vals = vec![dmin, dmax];
+    for v in used {
+        vals.push(v);
+        if v > dmin { vals.push(v - 1); }
+        if v < dmax { vals.push(v + 1); }
+    }
+    vals.sort();
+    vals.dedup();
+    let mut ranks: Vec<u64> = Vec::with_capacity(vals.len());
+    let mut first_gap = None;
+    for i in 0..vals.len() {
+        if i == 0 { ranks.push(0); }
+        else if vals[i] == vals[i - 1] + 1 { ranks.push(ranks[i - 1] + 1); }
+        else { if first_gap.is_none() { first_gap = Some(i); } ranks.push(ranks[i - 1] + 2); }
+    }
+    let last = *ranks.last().unwrap();
+    let fg = first_gap?;
+    if last > TRACE_TOP { return None; }
+    let extra = TRACE_TOP - last;
+    for r in ranks.iter_mut().skip(fg) { *r += extra; }
+    Some((vals, ranks))
+}
